@@ -37,6 +37,15 @@ CHECKS = {
              'the standard library: identity oracle / driver-measured facts, hence exploration rather than model checking.',
         design='5/C20 and 8', technique='TLA+ boundary/normalisation operators, TLC trace validation of sampled real executions',
         note='7-bit decode fidelity judged by python email; header identity only inside the stated domain. ' + TB),
+    'C16': dict(
+        level='model_checking',
+        text='TLC evaluates the Policies model (recursive replace-by-outputs of Queue._run_policies over an object heap, '
+             'the built-in policies and two adversarial ones) for every chain x recipient list x header set to the bound '
+             'against conservation / no-sharing / headers-once; the same space plus random longer chains is run through '
+             'the real Queue.enqueue and every observed output set is validated by TLC against those clauses (and '
+             'compared with the detailed model: drift is reported, not alarmed).',
+        design='5/C16', technique='TLA+ object-heap model of policy application, TLC exhaustive + TLC trace validation',
+        note='Forward rule set fixed; sharing observed via id() classes and a mutate-and-compare probe. ' + TB),
 }
 
 HOOK_COMMITS = []
